@@ -146,6 +146,11 @@ func (p *FSM) Open(_ <-chan struct{}) (uint64, error) {
 	var dbdir string
 	if rp.IsNewRun(p.fs, p.dirname) {
 		dbdir = filepath.Join(p.dirname, randomDir)
+		// The DB directory has to exist (durably, its entry is synced together with the current file below)
+		// before the current file starts to point at it, otherwise a crash leaves a table that cannot be opened.
+		if err := p.fs.MkdirAll(dbdir, 0o755); err != nil {
+			return 0, err
+		}
 		if err := rp.SaveCurrentDBDirName(p.fs, p.dirname, randomDir); err != nil {
 			return 0, err
 		}
